@@ -2,6 +2,7 @@ package main
 
 import (
 	"fmt"
+	"strconv"
 	"time"
 
 	"github.com/zalf-rpm/Hermes2Go/hermes"
@@ -60,6 +61,18 @@ func init() {
 				}
 				for _, cent := range cents {
 					conv := hermes.DateConverter(cent, f)
+					// the converter a run builds from its configuration (date format and century split given as settings) must
+					// be the same function: every second (format, split) pair, and every pair with an extreme split (0, 99, 100), is enumerated through it
+					if cent == 0 || cent >= 99 || (year+fi+cent)%2 == 0 {
+						g := hermes.NewGlobalVarsMain()
+						hp := hermes.NewHermesFilePath(scratchBase, "no_such_project", "0", "", "")
+						end := FmtDateSep(Date{year, 12, 31}, fi, "")
+						hermes.VerifReadConfig(&g, map[string]string{"Dateformat": strconv.Itoa(fi), "DivideCentury": strconv.Itoa(cent), "EndDate": end}, &hp)
+						if g.Datum != nil {
+							conv = g.Datum
+							res.cov("format_split_pairs_through_the_configuration", 1)
+						}
+					}
 					prevNum := -1
 					for d := (Date{year, 1, 1}); d.Y == year; d = d.AddDays(1) {
 						t := d.T()
